@@ -18,6 +18,7 @@ EXPLANATION = (
     "ADVISORY: __init__ aliases parent.line_info while copying source_files. Answer equality between extension and union is not decided."
     " Added after seed round 6: D7 a table filled by a reader of ClauseDB is reset by every method that writes an attribute in the data slice of the stored value or of the tests guarding the store."
     " Added after seed round 7: D5 also requires that every extend() returns a database constructed by that call."
+    " Added after seed round 8: D8 redirects are followed through the whole chain of extensions, oldest first, and every return path of the resolver consults the own table."
 )
 TECHNIQUE = "static analysis: ownership / who-may-write rule with computed mutator set, decision-table extraction of the copy-on-write branch"
 LEVEL_TEXT = EXPLANATION
